@@ -27,6 +27,7 @@ import (
 	"path/filepath"
 	"sort"
 	"strconv"
+	"strings"
 	"sync"
 	"sync/atomic"
 	"time"
@@ -309,6 +310,11 @@ func initTSTable(fileSystem fs.FileSystem, rootPath string, p common.Position,
 			continue
 		}
 		if filepath.Ext(ee[i].Name()) != snapshotSuffix {
+			if strings.HasSuffix(ee[i].Name(), snapshotSuffix+".tmp") {
+				// A manifest whose atomic write was cut short before the rename:
+				// it was never published, so nothing else would ever remove it.
+				needToDelete = append(needToDelete, ee[i].Name())
+			}
 			continue
 		}
 		snapshot, err := parseSnapshot(ee[i].Name())
